@@ -204,7 +204,7 @@ def enc_entities(W: dict) -> bytes:
     for ent in W['ents']:
         out.append('{\n')
         for k, v in ent['keys']:
-            out.append(f'"{k}" "{ent_escape(v)}"\n')
+            out.append(f'"{ent_escape(k)}" "{ent_escape(v)}"\n')
         for o in ent['outs']:
             sep = ',' if o['comma'] else '\x1b'
             name = o['out'] if o['inst_out'] is None else f'instance:{o["inst_out"]};{o["out"]}'
@@ -522,6 +522,8 @@ def ent_key(rng, used: set) -> str:
         k = rng.choice(('origin', 'angles', 'targetname', 'spawnflags', 'rendercolor', 'skin', 'message', 'Health',
                         'model', 'parentname', 'hammerid', '_light', 'StartDisabled')) if rng.random() < 0.6 else \
             rname(rng, 0, 10, 'abcdefXYZ012_ .#$')
+        if rng.random() < 0.06:
+            k += rng.choice(('"', '\\', '\t', '"q', '\\n'))   # keys are quoted strings like values: the same escapes apply
         if k.casefold() not in used and k.casefold() not in ('nodeid', 'classname'):
             used.add(k.casefold())
             return k
